@@ -181,15 +181,18 @@ def _c18(tier, seed):
 
 PROPS["C18"] = {
     "level": "other",
-    "files": ["src/common/model/privilege.rs", "src/namespace/mod.rs", "src/config/config_index.rs", "src/naming/service_index.rs"],
+    "files": ["src/common/model/privilege.rs", "src/namespace/mod.rs", "src/config/config_index.rs", "src/naming/service_index.rs", "src/user/mod.rs", "src/user/model.rs"],
     "smt": _c18,
     "trusted_base": _S_TRUSTED,
     "assumptions": [
         "white/blacklists range over subsets of {'', public, a, b}; the namespace asked about is an arbitrary string",
         "the per-namespace sub-index of a listing returns keys of its own namespace (its own filters are outside)",
         "NOT claimed: that every console handler calls the check before acting (a missing call site is not a solver question)",
+        "s18_3: UserManager::{add_user, update_user}, UserDo::build_namespace_privilege, From<UserDo> for UserDto, PrivilegeGroup::{all, new, get_flags} from source; the raft table route is a one-table store, "
+        "UserDo::to_bytes / from_bytes a copy (prost codec outside); lists absent / empty / [a] / [a, b] (blacklist: absent / empty / [b]), flags absent or arbitrary; quick tier compares through the closed form of "
+        "check_permission on the namespaces '', a, b, zz, thorough through the source of check_permission with an arbitrary namespace string; counterexamples and two sampled histories run on a real single-node application",
     ],
-    "outside": "the ~30 console handlers' call sites; how the privilege group is stored on the user and copied into the session",
+    "outside": "the ~30 console handlers' call sites; LDAP / OAuth2 users' groups; the session cache between two logins",
     "explanation": "bounded symbolic evaluation of the privilege algebra and the two index listing functions from the real source into SMT",
 }
 
@@ -354,9 +357,12 @@ for _pid, _fn, _txt in (("C11", _c11, "bookkeeping invariants of one service aft
         "smt": _fn,
         "trusted_base": PROPS["C09"]["trusted_base"],
         "assumptions": list(_NAMING_ASSUME),
-        "outside": "NamingActor parts other than the registration paths (namespace/group index queries, empty-service clean-up, cluster sync origins and process ranges), gRPC connection manager, protection threshold filter (naming/filter.rs)",
+        "outside": "NamingActor parts other than the registration paths and the empty-service clean-up (index page queries, cluster sync origins and process ranges), gRPC connection manager",
         "explanation": "bounded symbolic execution of the real Service source: " + _txt,
     }
+PROPS["C11"]["assumptions"].append("s11_3: NamingActor::{update_instance, remove_instance, create_empty_service, clear_empty_service, clear_one_empty_service, remove_empty_service} and NamespaceIndex / ServiceIndex "
+                                   "from source on three services (namespaces n1, n1, n2), one address each; the clock is a model variable on the grid start + [0, 20, 45, 100, 200] s, service time-out 30 s; "
+                                   "the native twin (harness/c11_core_priv.rs, inside naming::core) runs the timer step with the clock replaced by real clock + offset")
 for _pid in ("C11", "C12"):
     PROPS[_pid]["files"] = ["src/naming/service.rs", "src/naming/model.rs", "src/naming/core.rs", "src/naming/service_index.rs"]
     PROPS[_pid]["assumptions"].append("actor level (s11_2 / s12_2): NamingActor::{update_instance, remove_instance, remove_client_instance} are evaluated from source on one service with two "
@@ -399,13 +405,16 @@ PROPS["C01"]["kani"] = []
 PROPS["C01"]["smt"] = _c01
 PROPS["C01"]["trusted_base"] = PROPS["C05"]["trusted_base"][:1] + ["z3 5.1.0"]
 PROPS["C01"]["files"] = list(PROPS["C01"].get("files", [])) + ["src/raft/filestore/raftapply.rs"]
-PROPS["C01"]["outside"] = "the seven components' own snapshot / log handlers (what they do with the records and with the load-complete notification); RaftLogManager's Load implementation"
+PROPS["C01"]["outside"] = "the snapshot / log handlers of the table (users), sequence, cache and naming components (the config component's round trip, the namespace registry's and the MCP record order are in); the prost codecs of the record values; RaftLogManager's Load implementation"
 PROPS["C01"]["assumptions"] = [
     "s01_2: the start-up chain of StateApplyManager is evaluated from source; index / snapshot / log managers and the data handler are recording sinks with symbolic answers "
     "(catalogue with 0 or 1 snapshot ending at E >= 1, last-applied index A arbitrary); actor futures run to completion at the call",
     "quick_protobuf Writer / BytesReader primitives and tokio::fs::File are modelled (rs2smt/iomodel.py: open without truncate keeps the old content); SnapshotWriter, SnapshotReader, "
     "the DTO conversions, the generated message code and MessageBufReader are evaluated from source",
     "one tree name, 1-byte keys and values (symbolic), header fields in 1..=127, member / address lists empty; 0 or 2 (thorough: 0..=3) records left by an earlier build of the same id",
+    "s01_5: ConfigActor::{set_config, del_config, build_snapshot}, the ConfigValue <-> ConfigValueDO conversions, RaftDataHandler::load_snapshot (config and sequence trees) and the SetFullValue / InnerSetLastId arms "
+    "are evaluated from source; ConfigValueDO::to_bytes / from_bytes are a copy (prost codec outside), id_to_bin / bin_to_id the identity (k05_2_id_bin), get_md5(x) = 'md5:' ++ x; histories of 3 (thorough: 4) "
+    "publishes / removes on two keys, contents / descriptions arbitrary strings, types from {json, yaml, text}, operation times symbolic and increasing",
 ]
 
 
@@ -449,9 +458,13 @@ PROPS["C04"] = {
         "creation of a new log file (s04_2): a crash behind any prefix of init's own mutations leaves a file that reopens as an empty log and accepts the first append",
         "raft index file (s04_3): creation, hard-state save, last-applied write, second save of another record length; a crash behind any prefix of the file's mutations: the file reopens and "
         "reports the last acknowledged (term, vote, last-applied) or the one in flight",
+        "snapshot catalogue (s04_4): Handler<RaftSnapshotRequest> (CompleteSnapshot, InstallSnapshot) from source; std::fs::remove_file is applied at once, the SaveSnapshots message is the catalogue rewrite; "
+        "catalogue of 0..=3 (thorough: 4) snapshots whose files exist + the completed file of the new one; a process death behind every prefix: the last catalogued snapshot file exists; Path::new(..).join(..) = base/name; "
+        "validated on the real RaftIndexManager + RaftSnapshotManager with crash images for 2, 3 and 4 snapshots on every run",
+        "compaction order (s04_5): FileStore::do_log_compaction -> BuildSnapshot handler -> do_build_snapshot from source with recording collaborators: records, Flush, CompleteSnapshot, then the pointer entry in the log",
     ],
-    "outside": "snapshot files, and every order between different actors' files (catalogue update vs. new log file, snapshot completion): those sequences "
-               "exist only as actor message schedules",
+    "outside": "the content of a snapshot file under a kill in the middle of its build (it is not catalogued before Flush: s04_5), the log manager's own catalogue updates (rollover, split-off) against the index file, "
+               "a kill between CompleteSnapshot and the index actor's write (message in a mailbox)",
     "explanation": "bounded symbolic execution of the log file code with a symbolic crash point over the journal of file mutations",
 }
 
